@@ -265,12 +265,12 @@ func RejectProps(rj core.Reject, faults bool) []string {
 			add("C03")
 		case "IdleLockFree", "SharedMatchesReaders":
 			add("C09")
-		case "CrashSafe":
+		case "CrashSafe", "CrashSafeT":
 			add("C01")
 			if faults {
 				add("C08")
 			}
-		case "ReopenStable":
+		case "ReopenStable", "ReopenStableT":
 			add("C10")
 		default:
 			add("C03")
